@@ -350,8 +350,8 @@ struct DomSim {
       doc.reset();
       ext.reset();
       dead = true;
-      model = ref::Value::mk(ref::Null);
-      ext_model = ref::Value::mk(ref::Null);
+      ref::release(model);
+      ref::release(ext_model);
       if (kTrack) {
         ta::Ledger& L = ta::ledger();
         if (L.errors) ctx.violation("ledger_error", "dom_ledger_error", tr, "%s", L.first_error.c_str());
